@@ -15,10 +15,10 @@ use super::{
 };
 use crate::{
     protos::{
-        relay::{Datagrams, Status},
+        relay::{Datagrams, RelayToClientMsg, Status},
         streams::BytesStreamSink,
     },
-    server::{client::SendError, metrics::Metrics},
+    server::{client::SendError, metrics::Metrics, streams::ensure_sendable},
 };
 
 /// Registry of connected relay clients.
@@ -204,6 +204,18 @@ impl Clients {
         src: EndpointId,
         metrics: &Metrics,
     ) -> Result<(), ForwardPacketError> {
+        // The frame decoder accepts datagrams that can not be sent on to a client: empty ones,
+        // and ones that exceed the maximum packet size once the sender's id is prepended.
+        // Drop them here. Once queued, they would fail the *destination's* connection actor.
+        let frame = RelayToClientMsg::Datagrams {
+            remote_endpoint_id: src,
+            datagrams: data.clone(),
+        };
+        if let Err(err) = ensure_sendable(&frame) {
+            debug!(dst = %dst.fmt_short(), "dropped packet that can not be forwarded: {err:#}");
+            metrics.send_packets_dropped.inc();
+            return Ok(());
+        }
         let Some(client) = self.0.clients.get(&dst) else {
             debug!(dst = %dst.fmt_short(), "no connected client, dropped packet");
             metrics.send_packets_dropped.inc();
